@@ -124,7 +124,7 @@ impl HeaderField {
             Err(_) => tail_of(input@, ':') is None || !str_is_ascii(input@) || has_whitespace(head_of(input@, ':')),
         },
 //@entry
-        broadcast use axiom_bytes_of_str, axiom_chars_of_str;
+        broadcast use axiom_bytes_of_str, axiom_chars_of_str, lemma_trim_ascii;
         proof { lemma_parts_ascii(input@, ':'); }
 //@closure ~f.parse()~ |f: &str| -> (o: Option<HeaderField>) ensures match o { Some(x) => !has_whitespace(f@) && x.name() == f@, None => has_whitespace(f@) || !str_is_ascii(f@) }
 //@closure ~v.trim()~ |v: &str| -> (o: Option<AsciiString>) ensures match o { Some(x) => is_trimmed_of(x@, v@), None => !str_is_ascii(v@) }
